@@ -1,29 +1,56 @@
 import Driver.Util
-import Driver.Arith
-import Driver.RevGroup
+import Driver.Base.Main
+import Driver.Meta.Main
+import Driver.DS.Main
+import Driver.Layout.Main
+import Driver.Misc.Main
+import Driver.Conc.Main
 /-!
 # `mmtk_model`: the executable model behind the line protocol
 
 Reads one operation per line (`<component> <op> <args…>`), prints one canonical result line.
-`cfg <key> <value>` lines set the shared configuration (build profile, VM constants) and print
-`ok`, exactly as `hx_unit` does.
+`cfg <key> <value…>` lines are broadcast to every package and answer `ok`, exactly as `hx_unit`
+does. Components are grouped in packages (`Driver/<Pkg>/Main.lean`), each with its own state.
 -/
 open Driver
 
 structure St where
-  arith : Driver.Arith.Cfg := {}
+  base : Driver.Base.St := {}
+  meta : Driver.Meta.St := {}
+  ds : Driver.DS.St := {}
+  layout : Driver.Layout.St := {}
+  misc : Driver.Misc.St := {}
+  conc : Driver.Conc.St := {}
 
 def step (st : St) (line : String) : St × Option String :=
   match tokens line with
   | [] => (st, none)
-  | "cfg" :: "debug" :: [v] => ({ st with arith := { st.arith with debug := v == "1" } }, some "ok")
-  | "cfg" :: "vm_align" :: [a, b] =>
-    match num? a, num? b with
-    | some a, some b => ({ st with arith := { st.arith with vm := { minAlign := a, maxAlign := b } } }, some "ok")
-    | _, _ => (st, some "bad-op")
-  | "arith" :: args => (st, some (Driver.Arith.run st.arith args))
-  | "revgroup" :: args => (st, some (Driver.RevGroup.run args))
-  | _ => (st, some "bad-op")
+  | "cfg" :: rest =>
+    let st := { st with meta := Driver.Meta.cfg st.meta rest, ds := Driver.DS.cfg st.ds rest,
+                        layout := Driver.Layout.cfg st.layout rest, misc := Driver.Misc.cfg st.misc rest,
+                        conc := Driver.Conc.cfg st.conc rest }
+    match Driver.Base.step st.base ("cfg" :: rest) with
+    | some (b, _) => ({ st with base := b }, some "ok")
+    | none => (st, some "ok")
+  | toks =>
+    match Driver.Base.step st.base toks with
+    | some (s, o) => ({ st with base := s }, some o)
+    | none =>
+    match Driver.Meta.step st.meta toks with
+    | some (s, o) => ({ st with meta := s }, some o)
+    | none =>
+    match Driver.DS.step st.ds toks with
+    | some (s, o) => ({ st with ds := s }, some o)
+    | none =>
+    match Driver.Layout.step st.layout toks with
+    | some (s, o) => ({ st with layout := s }, some o)
+    | none =>
+    match Driver.Misc.step st.misc toks with
+    | some (s, o) => ({ st with misc := s }, some o)
+    | none =>
+    match Driver.Conc.step st.conc toks with
+    | some (s, o) => ({ st with conc := s }, some o)
+    | none => (st, some "bad-op")
 
 partial def loop (h : IO.FS.Stream) (out : IO.FS.Stream) (st : St) : IO Unit := do
   let line ← h.getLine
